@@ -158,6 +158,68 @@ def run(S, tier):
             'analyze_operand_type neither panics nor fails to return on well-formed operand types', 1,
             lambda m, ta, tb: (line_for(m, ta, tb), 'PANIC'))
         accept_terms[enum_name] = (opv, edef, zand(g2, is_ok), resolve_ok)
+    # ---- operands of a binary operator / comparison must have the identical type
+    exm = Executor(S.dump, S.defs)
+    exm.abstract_types = {'Identifier': 16}
+    exm.havoc_patterns = [(r'Typed>::value_type$', 2, lambda b: b in ('ValueType', 'Poison')),
+                          r'Expression::location$', r'Location as Clone>::clone$']
+    try:
+        gm, rm = exm.call_function(S.dump.get('match_type_of_operands'),
+                                   [ValRef(Opaque('left')), ValRef(Opaque('right')), ValRef(Opaque('loc'))],
+                                   z3.BoolVal(True), State())
+    except (Unsupported, KeyError) as e:
+        raise Inconclusive('cannot encode match_type_of_operands: %s' % e)
+    S.functions.append('match_type_of_operands')
+    vts = [hv for callee, hv in exm.havoc_log if callee.endswith('value_type')]
+    if len(vts) != 2:
+        raise Inconclusive('match_type_of_operands no longer asks exactly two operands for their type (%d)' % len(vts))
+
+    def some_ok(v):
+        return zand(v.discr == bv(1, 64), v.variants['Some'][0].discr == bv(0, 64))
+    lt_, rt_ = vts[0].variants['Some'][0].variants['Ok'][0], vts[1].variants['Some'][0].variants['Ok'][0]
+    TL, TR = vtref.T(lt_), vtref.T(rt_)
+    both = zand(some_ok(vts[0]), some_ok(vts[1]))
+    okm = zand(gm, rm.discr == bv(0, 64))
+    wfl = exm.call_function(S.fn('is_wellformed'), [ValRef(lt_)], z3.BoolVal(True), State())[1]
+    wfr = exm.call_function(S.fn('is_wellformed'), [ValRef(rt_)], z3.BoolVal(True), State())[1]
+    sm = z3.Solver()
+    sm.add(*exm.assumptions)
+
+    def askm(qname, formula, text):
+        t = time.time()
+        sm.push()
+        sm.add(formula)
+        r = sm.check()
+        m = sm.model() if r == z3.sat else None
+        sm.pop()
+        S.solver_s += time.time() - t
+        if r == z3.unknown:
+            raise Inconclusive('z3 answered unknown on %s' % qname)
+        q = {'name': qname, 'result': str(r), 'seconds': round(time.time() - t, 3), 'statement': text}
+        S.queries.append(q)
+        if r == z3.sat:
+            tl = vtlib.from_model(m, lt_, kinds) if z3.is_true(m.eval(some_ok(vts[0]), model_completion=True)) else None
+            tr = vtlib.from_model(m, rt_, kinds) if z3.is_true(m.eval(some_ok(vts[1]), model_completion=True)) else None
+            q['counterexample'] = {'left': vtlib.wire(tl) if tl else None, 'right': vtlib.wire(tr) if tr else None}
+            if tl is None or tr is None:
+                raise Inconclusive('counterexample of %s has an operand without a type: not replayable' % qname)
+            line = 'operands %s %s' % (vtlib.wire(tl), vtlib.wire(tr))
+            got = native([line])[0]
+            enc = 'true' if z3.is_true(m.eval(okm, model_completion=True)) else 'false'
+            if got != enc:
+                raise Inconclusive('counterexample for %s does not reproduce natively: %s -> %s (encoding %s)' % (qname, line, got, enc))
+            S.violations.append({'query': qname, 'statement': text, 'a': tl, 'b': tr, 'functions': [], 'model': m,
+                                 'native_request': line, 'native_answer': got, 'confirmed': True})
+    askm('operands-identical', zand(okm, wfl, wfr, znot(zand(both, vtref.same(TL, TR)))),
+         'a binary operation is accepted only if both operand types are known and identical (E551 otherwise)')
+    res_ty = rm.variants['Ok'][0] if 'Ok' in rm.variants else None
+    if res_ty is not None:
+        askm('operands-result-type', zand(okm, both, znot(vtref.same(vtref.T(res_ty), TL))),
+             'the type of the operation is the type of its operands')
+    askm('operands-accepted', zand(both, wfl, wfr, vtref.same(TL, TR), znot(okm)),
+         'operands of identical, well-formed type are accepted')
+    for k, v in exm.used_models.items():
+        S.ex.used_models[k] += v
     S.exec_s += time.time() - t0
 
     # ---- native validation of the encoding on concrete operand types
